@@ -127,11 +127,15 @@ pub fn rebuild_archive<P: AsRef<Path>>(
     let extracted_count = extracted_files.len();
     log::info!("Extracted {extracted_count} files from source archive");
 
+    // Count over the files that were enumerated (the block-table based file_count ignores
+    // empty files, which made `file_count - extracted` underflow)
+    let source_count = listed_count(&mut source, &metadata).max(extracted_count);
+
     if options.list_only {
         return Ok(RebuildSummary {
-            source_files: metadata.file_count,
+            source_files: source_count,
             extracted_files: extracted_count,
-            skipped_files: metadata.file_count - extracted_count,
+            skipped_files: source_count - extracted_count,
             target_format: determine_target_format(&metadata, &options),
             verified: false,
         });
@@ -160,12 +164,26 @@ pub fn rebuild_archive<P: AsRef<Path>>(
     };
 
     Ok(RebuildSummary {
-        source_files: metadata.file_count,
+        source_files: source_count,
         extracted_files: extracted_count,
-        skipped_files: metadata.file_count - extracted_count,
+        skipped_files: source_count - extracted_count,
         target_format,
         verified,
     })
+}
+
+/// Number of files the rebuild enumerates in the source (same listing as extraction uses)
+fn listed_count(archive: &mut Archive, metadata: &ArchiveMetadata) -> usize {
+    let files = if metadata.has_het_bet {
+        archive
+            .list_all_with_hashes()
+            .unwrap_or_else(|_| archive.list().unwrap_or_default())
+    } else {
+        archive
+            .list()
+            .unwrap_or_else(|_| archive.list_all().unwrap_or_default())
+    };
+    files.len()
 }
 
 /// Summary of rebuild operation
